@@ -197,7 +197,7 @@ def run(F, res, tier):
             rv = RP_lookup(reviewed, "M1/" + full, FL.guard_signature(F, f, b, defs))
             if rv:
                 guards = FL.guard_signature(F, f, b, defs)
-                if guards_hold(rv.get("guards", []), guards):
+                if guards_hold(rv.get("guards", []), guards, {v.get("name") for v in (f.d.get("debug") or [])}):
                     res.ob("M1", full, desc, True, where=f.loc(ln), how="reviewed: %s [guards: %s]" % (rv["reason"], guards), reviewed=True)
                 elif INV.renumbered(f, key.rsplit("/", 1)[0], guards):
                     res.ob("M1", full, desc, True, where=f.loc(ln), reviewed=True,
